@@ -310,6 +310,13 @@ func runC14(c *core.Ctx) {
 				if !core.DominatesInstr(wCall, eCall) || eCall.Call.Args[2] != ssa.Value(fn.Params[2]) {
 					okE, whyE = false, "the removal from the eligible lists does not follow the waiting removal with the capped numToRemove"
 				}
+				// no way out of the function that gets round the capping loop and the eligible removal:
+				// the caller goes on to shuffle numToRemove validators out of every eligible list
+				for _, r := range core.Returns(fn) {
+					if !core.DominatesInstr(eCall, r) {
+						okE, whyE = false, "the function can return at "+c.P.Pos(r.Pos())+" without having lowered numToRemove (the caller shuffles that many validators out of the eligible list afterwards)"
+					}
+				}
 				for _, l := range core.Loops(fn) {
 					if l.Body[eCall.Block()] {
 						okE, whyE = false, "the removal from the eligible lists runs inside a loop"
